@@ -1,0 +1,14 @@
+//go:build verif
+
+package asserts
+
+// The bytes that are later hashed and verified (content, signature, body) must be a private
+// snapshot: they may not share storage with the caller's buffer, from which the headers were
+// parsed once. Otherwise the caller could change the signed bytes after decoding.
+
+//@ func Decode
+//@   props C18
+//@   guard call assemble: arg2 == nil || arrayOf(arg2) != arrayOf(serializedAssertion)
+//@   guard call assemble: arg3 == nil || arrayOf(arg3) != arrayOf(serializedAssertion)
+//@   guard call assemble: arg1 == nil || arrayOf(arg1) != arrayOf(serializedAssertion)
+//@   guard call parseHeaders: arg0 == nil || arrayOf(arg0) != arrayOf(serializedAssertion)
